@@ -36,10 +36,19 @@ Sends(c) == IF c.fault = "ser" /\ (HasBody(c) \/ IsMultipart(c)) THEN 0 ELSE c.e
 Fails(c) == \/ c.fault \in {"transport", "decode", "decodeNilErr"}
             \/ c.fault = "ser" /\ (HasBody(c) \/ IsMultipart(c))
 
+\* DefaultHeader may carry a Content-Type of its own.  The request then carries the DECLARED Content-Type (required: a multipart body cannot be
+\* parsed without its boundary) and nothing but the default's and the declared values (whether the default's value travels along, as on the pinned
+\* tree, or is replaced is left open).  r.hdr is the request header without Content-Type, c.hdr the default header.
+Range(s) == {s[j] : j \in DOMAIN s}
+NoCT(h) == SelectSeq(h, LAMBDA p : p[1] # "Content-Type")
+DefCT(h) == {p[2] : p \in {q \in Range(h) : q[1] = "Content-Type"}}
+CtOK(c, r) == LET d == IF c.hdrNil THEN {} ELSE DefCT(c.hdr) IN
+              IF d = {} THEN r.ct = ContentType(c)
+              ELSE Range(ContentType(c)) \subseteq Range(r.ct) /\ Range(r.ct) \subseteq d \cup Range(ContentType(c))
 ReqOK(c, r) == /\ r.method = Method(c)
                /\ r.url = URL(c)
-               /\ r.ct = ContentType(c)
-               /\ r.hdr = (IF c.hdrNil THEN <<>> ELSE c.hdr)            \* a copy of DefaultHeader
+               /\ CtOK(c, r)
+               /\ r.hdr = (IF c.hdrNil THEN <<>> ELSE NoCT(c.hdr))      \* a copy of DefaultHeader
                /\ r.body = Body(c)
 Judge(e) ==
   LET c == e.case IN
@@ -56,7 +65,7 @@ Why(e) == LET c == e.case IN
   ELSE IF Len(e.reqs) # Sends(c) THEN "request-count"
   ELSE IF \E j \in DOMAIN e.reqs : e.reqs[j].method # Method(c) THEN "method"
   ELSE IF \E j \in DOMAIN e.reqs : e.reqs[j].url # URL(c) THEN "url"
-  ELSE IF \E j \in DOMAIN e.reqs : e.reqs[j].ct # ContentType(c) \/ e.reqs[j].hdr # (IF c.hdrNil THEN <<>> ELSE c.hdr) THEN "header"
+  ELSE IF \E j \in DOMAIN e.reqs : ~CtOK(c, e.reqs[j]) \/ e.reqs[j].hdr # (IF c.hdrNil THEN <<>> ELSE NoCT(c.hdr)) THEN "header"
   ELSE IF \E j \in DOMAIN e.reqs : e.reqs[j].body # Body(c) THEN "body"
   ELSE IF e.defaultHeaderAfter # (IF c.hdrNil THEN <<>> ELSE c.hdr) THEN "default-header-mutated"
   ELSE IF \E j \in DOMAIN e.results : e.results[j].panic THEN "panic" ELSE "result"
@@ -67,6 +76,11 @@ BodyRepr(kind) == CASE kind \in {"nilslice", "emptyslice", "custom-nilslice"} ->
                     [] kind \in {"nilmap", "emptymap"} -> [t |-> "map[string]int", v |-> "map[]"]
                     [] kind = "slice" -> [t |-> "[]string", v |-> "[a b]"]
                     [] kind = "zeroint" -> [t |-> "int", v |-> "0"]
-JudgeBodyKind(b) == LET r == BodyRepr(b.kind) IN
+\* ---- the default serializers behind the API constructors (part "defaults"): every call's request body is the serializer's output for the
+\* body given to THAT call (pairs: expected text - json.Marshal of that body, or the form's fields - and what the transport received; exactly one
+\* request per call), no call fails, every response is decoded into its own target - sequentially, nested (an interceptor evaluates another
+\* JSON API while the outer request is in flight) and when the first calls on a fresh SimpleAPI come from several goroutines at once
+JudgeDefaults(b) == ~b.err /\ b.decoded /\ Len(b.pairs) = b.calls /\ \A i \in DOMAIN b.pairs : b.pairs[i].got = b.pairs[i].want
+JudgeBodyKind(b) == IF b.part = "defaults" THEN JudgeDefaults(b) ELSE LET r == BodyRepr(b.kind) IN
   /\ ~b.err /\ b.calls = 1 /\ b.seen = r.t \o ":" \o r.v /\ b.body = "SER:" \o r.v
 =============================================================================
